@@ -53,9 +53,9 @@ static int vp_is_blk(const void *b, int k) { for (unsigned i = 0; i < vp_nblk[k]
 static uint64_t vpl_hash16(const uint16_t *p, uint32_t n) { uint64_t h = 0x1E3779B97F4A7C15ULL ^ n; for (uint32_t i = 0; i < H16(p, n); i++) { if (i >= n) break; h = ((h << 7) | (h >> 57)) ^ p[i]; } return h | 0x8000000000000000ULL; }
 #define QSBLK(p) ((struct qs*)((char*)(p) - QS_OFF))
 /* ids live in model blocks only (a literal operand is compared unit by unit, bounded by its constant length); `lit` = the content
-   is a verbatim copy of literal data, `exact` = sid is valid (len <= 3, or lit) */
-#define VIEW_EXACT(p, n) (VP_IS_QS(p) ? (QSBLK(p)->exact && QSBLK(p)->h.f1 == (n)) : ((n) <= 3))
-#define VIEW_SID(p, n) (VP_IS_QS(p) ? QSBLK(p)->sid : SID_PACK(p, n))
+   is a verbatim copy of literal data, `exact` = sid is valid (== lit) */
+#define VIEW_EXACT(p, n) (VP_IS_QS(p) && QSBLK(p)->exact && QSBLK(p)->h.f1 == (n))
+#define VIEW_SID(p, n) (QSBLK(p)->sid)
 #define VIEW_LIT(p, n) (VP_IS_QS(p) ? (QSBLK(p)->lit && QSBLK(p)->h.f1 == (n)) : VP_LITSTART(p))
 static uint32_t hint16(const uint16_t *p, uint64_t n) { if (n == 0) return 0; if (VP_IS_QS(p)) return ((struct qs*)((char*)p - QS_OFF))->hint; return (uint32_t)n; }
 static uint32_t hint8(const uint8_t *p, uint64_t n) { if (n == 0) return 0; if (VP_IS_QB(p)) return ((struct qb*)((char*)p - QB_OFF))->hint; return (uint32_t)n; }
@@ -101,7 +101,8 @@ char* _ZN10QArrayData8allocateEmmm6QFlagsINS_16AllocationOptionEE(uint64_t objSi
 struct numv { uint8_t isnum, neg; uint64_t mag; };
 static struct numv NONUM = { 0, 0, 0 };
 /* seal: compute the id of a freshly built block; lit = its content is a verbatim copy of exact (literal-derived) content */
-static void qs_seal(QAD *d, int lit) { struct qs *q = (struct qs*)d; uint32_t n = d->f1; q->lit = lit; if (n <= 3) { q->sid = SID_PACK(q->data, n); q->exact = 1; } else if (lit) { q->sid = vpl_hash16(q->data, n); q->exact = 1; } else { q->exact = 0; } }
+/* ids are used for literal-derived content only (constant at symex time); symbolic content is compared unit by unit (its hint is small) */
+static void qs_seal(QAD *d, int lit) { struct qs *q = (struct qs*)d; uint32_t n = d->f1; q->lit = lit; q->exact = lit; if (lit) q->sid = n <= 3 ? SID_PACK(q->data, n) : vpl_hash16(q->data, n); }
 static QAD *qs_from(const uint16_t *p, uint32_t n) { uint32_t h = hint16(p, n); QAD *d = qs_new(n, h); vpl_copy16(d, 0, p, n, h); qs_seal(d, VIEW_LIT(p, n)); return d; }
 static QAD *qb_from(const uint8_t *p, uint32_t n) { uint32_t h = hint8(p, n); QAD *d = qb_new(n, h); vpl_copy8(d, 0, p, n, h); BD(d)[n] = 0; return d; }
 static QAD *qs_number(uint64_t mag, uint8_t neg) { QAD *d = qs_new(1, 1); SD(d)[0] = '#'; struct qs *q = (struct qs*)d; q->isnum = 1; q->neg = neg && mag != 0; q->mag = mag; return d; }
@@ -130,8 +131,8 @@ static int view_cmp(uint64_t na, const uint16_t *a, uint64_t nb, const uint16_t 
 #define QNUM16(d) ((d)->f3 == QS_OFF && ((struct qs*)(d))->isnum)
 #define QNUM8(d) ((d)->f3 == QB_OFF && ((struct qb*)(d))->isnum)
 #define QCH16(d) ((uint16_t*)((char*)(d) + (d)->f3))
-#define QEXACT16(d) ((d)->f3 == QS_OFF ? ((struct qs*)(d))->exact : ((d)->f1 <= 3))
-#define QSID16(d) ((d)->f3 == QS_OFF ? ((struct qs*)(d))->sid : SID_PACK(QCH16(d), (d)->f1))
+#define QEXACT16(d) ((d)->f3 == QS_OFF && ((struct qs*)(d))->exact)
+#define QSID16(d) (((struct qs*)(d))->sid)
 #define QLIT16(d) ((d)->f3 == QS_OFF ? ((struct qs*)(d))->lit : ((d)->f3 == 24))
 #define QTAG16(d) ((d)->f3 == QS_OFF ? ((struct qs*)(d))->b64 : (QAD*)0)
 #define QTAG8(d) ((d)->f3 == QB_OFF ? ((struct qb*)(d))->b64 : (QAD*)0)
